@@ -339,6 +339,39 @@ func child(h History) {
 				done <- true
 			}
 			<-done
+		case "setnnp":
+			done := make(chan bool)
+			workers[op.Thread].cmd <- func() {
+				obs.Result = classify(seccomp.SetNoNewPrivs())
+				done <- true
+			}
+			<-done
+		case "loadunpin":
+			// The goroutine starts on the worker's thread but is not pinned to it while it loads; the hook between
+			// the no_new_privs step and seccomp(2) tries to get it rescheduled elsewhere.  (Last operation of a
+			// history only: afterwards the worker may sit on another thread.)
+			pol := policyFor(op.Policy)
+			filter := seccomp.Filter{NoNewPrivs: op.NNP, Flag: seccomp.FilterFlag(op.Flags), Policy: pol}
+			done := make(chan bool)
+			migrate = true
+			var busy int32 = 1
+			for i := 0; i < 3; i++ {
+				go func() {
+					for atomic.LoadInt32(&busy) == 1 {
+					}
+				}()
+			}
+			workers[op.Thread].cmd <- func() {
+				obs.EntryTid = syscall.Gettid()
+				runtime.UnlockOSThread()
+				obs.Result = classify(seccomp.LoadFilter(filter))
+				runtime.LockOSThread()
+				done <- true
+			}
+			<-done
+			atomic.StoreInt32(&busy, 0)
+			obs.HookTids = hookTids
+			obs.FlagsSeen = flagsSeen
 		}
 		for _, w := range workers {
 			st, _ := readStatus(w.tid)
@@ -458,6 +491,10 @@ func request(h History) string {
 			fmt.Fprintf(&b, " loadfree %d %d %s", b2i(op.NNP), op.Flags, pol(op.Policy))
 		case "supported":
 			fmt.Fprintf(&b, " supported %d", op.Thread)
+		case "setnnp":
+			fmt.Fprintf(&b, " setnnp %d", op.Thread)
+		case "loadunpin":
+			fmt.Fprintf(&b, " loadunpin %d %d %d %s", op.Thread, b2i(op.NNP), op.Flags, pol(op.Policy))
 		}
 	}
 	return b.String()
@@ -506,6 +543,18 @@ func genHistory(r *rand.Rand, profile string) History {
 			}
 		}
 		h.Ops = append(h.Ops, op)
+	}
+	if profile == "nnp" && !h.NoNNP && h.Threads >= 2 && r.Intn(4) == 0 {
+		// The bit is already on one thread only (the exported SetNoNewPrivs(), or an earlier load on that thread);
+		// then a goroutine that merely happens to run on that thread loads with NoNewPrivs: it must still pin itself
+		// before relying on the bit, or a migration takes it to a thread without it.
+		t := r.Intn(h.Threads)
+		first := Op{Op: "setnnp", Thread: t}
+		if r.Intn(2) == 0 {
+			first = Op{Op: "load", Thread: t, NNP: true, Flags: []uint32{0, 2}[r.Intn(2)], Policy: "valid"}
+		}
+		h.Ops = []Op{first, {Op: "loadunpin", Thread: t, NNP: true, Flags: []uint32{0, 2}[r.Intn(2)], Policy: "valid:13"}}
+		return h
 	}
 	if profile == "nnp" && r.Intn(2) == 0 {
 		// An unpinned goroutine in a fresh process (every thread is in the same state, so it does not
@@ -589,6 +638,9 @@ func compare(h History, obs []Obs, model string) (ok bool, note string, failing 
 		}
 		if strings.HasPrefix(o.CaptureOK, "DIFFERENT") || strings.Contains(o.CaptureOK, "error-but") {
 			return false, where + ": program handed to the kernel: " + o.CaptureOK, where + ": the array handed to the kernel is not the compiled program (" + o.CaptureOK + ")"
+		}
+		if op.Op == "loadunpin" && len(o.HookTids) == 2 && o.HookTids[0] != o.HookTids[1] && op.NNP {
+			return false, where + ": goroutine migrated between the no_new_privs step and seccomp", fmt.Sprintf("%s: NoNewPrivs was requested, the goroutine was on thread %d before and on thread %d at seccomp(2) (result %s)", where, o.HookTids[0], o.HookTids[1], o.Result)
 		}
 		if op.Op == "loadfree" {
 			if len(o.HookTids) == 2 && o.HookTids[0] != o.HookTids[1] && op.NNP {
